@@ -28,6 +28,9 @@ pub enum Probe {
     Bytes(usize),
     /// TCP connected but the TLS handshake failed with an error (not a timeout)
     TlsFailed(String),
+    /// connect() neither succeeded nor was refused (timeout, no descriptor, ...): says nothing
+    /// about the worker
+    NoVerdict(String),
 }
 
 impl Probe {
@@ -41,6 +44,7 @@ impl Probe {
             }
             Probe::Bytes(n) => format!("{n} non-http bytes"),
             Probe::TlsFailed(e) => format!("tls handshake failed: {e}"),
+            Probe::NoVerdict(e) => format!("connect gave no verdict: {e}"),
         }
     }
     pub fn class(&self) -> String {
@@ -51,12 +55,50 @@ impl Probe {
             Probe::Http { status, .. } => format!("{status}"),
             Probe::Bytes(_) => "bytes".into(),
             Probe::TlsFailed(_) => "tls_failed".into(),
+            Probe::NoVerdict(_) => "no_verdict".into(),
         }
     }
 }
 
-pub fn can_connect(addr: SocketAddr) -> Result<TcpStream, String> {
-    peers::connect(addr, None, &IoProgram::fast(), Duration::from_millis(1500)).map_err(|e| format!("{e}"))
+/// connect(): only ECONNREFUSED is a refusal (a fact about the address); every other failure
+/// (timeout on a starved box, descriptor shortage) is `NoVerdict`
+pub fn can_connect(addr: SocketAddr) -> Result<TcpStream, Probe> {
+    peers::connect(addr, None, &IoProgram::fast(), Duration::from_secs(10)).map_err(|e| {
+        if e.kind() == std::io::ErrorKind::ConnectionRefused {
+            Probe::Refused(format!("{e}"))
+        } else {
+            Probe::NoVerdict(format!("{e}"))
+        }
+    })
+}
+
+/// Does a LISTEN socket bound to `addr` belong to this process? (/proc/net/tcp inode looked up in
+/// /proc/self/fd). None when it cannot be told.
+pub fn listen_socket_is_ours(addr: SocketAddr) -> Option<bool> {
+    let SocketAddr::V4(v4) = addr else { return None };
+    let o = v4.ip().octets();
+    let key = format!("{:02X}{:02X}{:02X}{:02X}:{:04X}", o[3], o[2], o[1], o[0], v4.port());
+    let table = std::fs::read_to_string("/proc/net/tcp").ok()?;
+    let mut inodes = Vec::new();
+    for line in table.lines().skip(1) {
+        let f: Vec<&str> = line.split_whitespace().collect();
+        if f.len() > 9 && f[1] == key && f[3] == "0A" {
+            inodes.push(f[9].to_owned());
+        }
+    }
+    if inodes.is_empty() {
+        return None;
+    }
+    let dir = std::fs::read_dir("/proc/self/fd").ok()?;
+    for e in dir.flatten() {
+        if let Ok(t) = std::fs::read_link(e.path()) {
+            let t = t.to_string_lossy().into_owned();
+            if inodes.iter().any(|i| t == format!("socket:[{i}]")) {
+                return Some(true);
+            }
+        }
+    }
+    Some(false)
 }
 
 fn find(hay: &[u8], needle: &[u8]) -> Option<usize> {
@@ -162,7 +204,7 @@ pub fn read_response<S: TimedRead>(stream: &mut S, wait: Duration) -> Probe {
 pub fn http_probe(addr: SocketAddr, host: &str, path: &str, wait: Duration) -> Probe {
     let mut s = match can_connect(addr) {
         Ok(s) => s,
-        Err(e) => return Probe::Refused(e),
+        Err(p) => return p,
     };
     let req = format!("GET {path} HTTP/1.1\r\nHost: {host}\r\nConnection: close\r\n\r\n");
     if s.write_all(req.as_bytes()).is_err() {
@@ -175,7 +217,7 @@ pub fn http_probe(addr: SocketAddr, host: &str, path: &str, wait: Duration) -> P
 pub fn https_probe(addr: SocketAddr, host: &str, path: &str, wait: Duration) -> Probe {
     let s = match can_connect(addr) {
         Ok(s) => s,
-        Err(e) => return Probe::Refused(e),
+        Err(p) => return p,
     };
     let (mut t, _info) = match TlsClient::handshake(s, host, tls::client_config(&["http/1.1"]), wait) {
         Ok(x) => x,
@@ -243,6 +285,8 @@ pub struct Backends {
     /// UDP twins on the same ports: answer every datagram with `U<port>`
     udp_stop: Arc<AtomicBool>,
     udp_threads: Vec<JoinHandle<()>>,
+    /// datagrams received by the UDP twins
+    pub udp_received: Arc<AtomicU64>,
     pub slow_seen: Arc<AtomicU64>,
     pub requests: Arc<AtomicU64>,
 }
@@ -314,15 +358,17 @@ pub fn start_backends(addrs: &[SocketAddr]) -> Result<Backends, String> {
         servers.push(TagBackend { addr: *addr, stop, thread: Some(thread) });
     }
     let udp_stop = Arc::new(AtomicBool::new(false));
+    let udp_received = Arc::new(AtomicU64::new(0));
     let mut udp_threads = Vec::new();
     for addr in addrs {
         let sock = std::net::UdpSocket::bind(addr).map_err(|e| format!("udp backend {addr}: {e}"))?;
         let _ = sock.set_read_timeout(Some(Duration::from_millis(100)));
-        let (st, port) = (udp_stop.clone(), addr.port());
+        let (st, port, seen) = (udp_stop.clone(), addr.port(), udp_received.clone());
         if let Ok(t) = std::thread::Builder::new().name(format!("c08-udp-backend-{port}")).spawn(move || {
             let mut buf = [0u8; 2048];
             while !st.load(Ordering::SeqCst) {
                 if let Ok((_, from)) = sock.recv_from(&mut buf) {
+                    seen.fetch_add(1, Ordering::SeqCst);
                     let _ = sock.send_to(format!("U{port}").as_bytes(), from);
                 }
             }
@@ -330,7 +376,7 @@ pub fn start_backends(addrs: &[SocketAddr]) -> Result<Backends, String> {
             udp_threads.push(t);
         }
     }
-    Ok(Backends { servers, slow_seen, requests, udp_stop, udp_threads })
+    Ok(Backends { servers, slow_seen, requests, udp_stop, udp_threads, udp_received })
 }
 
 impl Backends {
